@@ -32,11 +32,12 @@ type POp struct {
 
 // Case is a prefix history plus one interrupted operation.
 type Case struct {
-	Specs  []gen.NodeSpec `json:"specs"`
-	Big    bool           `json:"big,omitempty"` // node 0 is a blob > 1 MiB
-	Prefix []POp          `json:"prefix"`
-	Last   POp            `json:"last"`
-	AutoGC bool           `json:"autoGC"`
+	Specs   []gen.NodeSpec `json:"specs"`
+	Big     bool           `json:"big,omitempty"` // node 0 is a blob > 1 MiB
+	Prefix  []POp          `json:"prefix"`
+	Last    POp            `json:"last"`
+	AutoGC  bool           `json:"autoGC"`
+	Cascade bool           `json:"cascade,omitempty"` // the final Delete's auto-GC removes further manifests
 }
 
 var refs = []string{"latest", "v1", "sig"}
@@ -51,6 +52,27 @@ func genCaseSeeded(seed int) Case {
 		stored := map[int]bool{}
 		tags := map[string]int{}
 		np := rapid.IntRange(0, 12).Draw(t, "nPrefix")
+		if rapid.IntRange(0, 3).Draw(t, "fullGraph") == 0 {
+			// everything is stored, referrers stay untagged: deletions cascade
+			for _, n := range ids {
+				c.Prefix = append(c.Prefix, POp{Op: "push", N: n})
+				stored[n] = true
+			}
+			for _, n := range ids {
+				isReferrer := false
+				for _, ed := range d.Nodes[n].Edges {
+					if ed.Role == "subject" {
+						isReferrer = true
+					}
+				}
+				if !isReferrer && d.IsManifest(n) && rapid.IntRange(0, 2).Draw(t, "tagRoot") == 0 {
+					ref := rapid.SampledFrom(refs).Draw(t, "rootRef")
+					c.Prefix = append(c.Prefix, POp{Op: "tag", N: n, Ref: ref})
+					tags[ref] = n
+				}
+			}
+			np = rapid.IntRange(0, 3).Draw(t, "nPrefixAfterFull")
+		}
 		for i := 0; i < np; i++ {
 			switch r := rapid.IntRange(0, 9).Draw(t, "pop"); {
 			case r < 6:
@@ -94,7 +116,7 @@ func genCaseSeeded(seed int) Case {
 		}
 		cands = append(cands, POp{Op: "gc"}, POp{Op: "save"})
 		sort.Slice(cands, func(i, j int) bool { return fmt.Sprint(cands[i]) < fmt.Sprint(cands[j]) })
-		kinds := []string{"push", "push", "tag", "delete", "delete", "delete", "untag", "gc", "gc", "save"}
+		kinds := []string{"push", "push", "tag", "delete", "delete", "delete", "delete", "untag", "gc", "gc", "save"}
 		want := rapid.SampledFrom(kinds).Draw(t, "lastKind")
 		var pool []POp
 		for _, cd := range cands {
@@ -133,6 +155,53 @@ func genCaseSeeded(seed int) Case {
 		}
 		if len(tpool) > 0 && rapid.Bool().Draw(t, "preferTagged") {
 			pool = tpool
+		}
+		// prefer deletions whose auto-GC cascade removes further manifests (stored,
+		// untagged referrers of the target, or untagged child manifests that only
+		// the target lists): several blobs and index entries go in one operation
+		var cpool []POp
+		parents := d.Parents()
+		taggedNode := map[int]bool{}
+		for _, n := range tags {
+			taggedNode[n] = true
+		}
+		for _, cd := range pool {
+			if cd.Op != "delete" || !d.IsManifest(cd.N) {
+				continue
+			}
+			cascade := 0
+			for _, p := range parents[cd.N] {
+				if !stored[p] || taggedNode[p] {
+					continue
+				}
+				for _, ed := range d.Nodes[p].Edges {
+					if ed.Role == "subject" && ed.To == cd.N {
+						cascade++
+					}
+				}
+			}
+			for _, ed := range d.Nodes[cd.N].Edges {
+				if !d.IsManifest(ed.To) || !stored[ed.To] || taggedNode[ed.To] {
+					continue
+				}
+				others := 0
+				for _, p := range parents[ed.To] {
+					if p != cd.N && stored[p] {
+						others++
+					}
+				}
+				if others == 0 {
+					cascade++
+				}
+			}
+			if cascade > 0 {
+				cpool = append(cpool, cd)
+			}
+		}
+		if len(cpool) > 0 && rapid.IntRange(0, 3).Draw(t, "preferCascade") != 0 {
+			pool = cpool
+			c.AutoGC = true
+			c.Cascade = true
 		}
 		c.Last = rapid.SampledFrom(pool).Draw(t, "last")
 		return c
